@@ -148,7 +148,8 @@ func c07Impl(f *server.ExtAuthZFilter, target string) (bool, error) {
 
 var (
 	c07Paths = []string{"", "/", "/a", "/a/b", "/b", "/a.css", "/b.css"}
-	c07Tails = []string{"", "?", "#", "?x=1", "?.css", "?p=/a", "?/a/b", "#/a", "#.css", "?x#.css", "#x?.css", "?^/a$"}
+	c07Tails = []string{"", "?", "#", "?x=1", "?.css", "?p=/a", "?/a/b", "#/a", "#.css", "?x#.css", "#x?.css", "?^/a$",
+		"##", "#x#.css", "#.css#x", "#x#/a", "??", "?x?.css", "?x?/a", "#x#y#/a/b", "?x#y?z#.css", "%23.css", "%3F/a", ";.css", "/../a", "//a"}
 )
 
 func c07Patterns() []c07Pat {
@@ -240,7 +241,8 @@ func c07CheckSet(r *ev.Run, rules []c07Rule) int {
 			}
 			n++
 			want := c07RefTriggered(rules, target)
-			if got != want || got != base {
+			isTail := strings.HasPrefix(tail, "?") || strings.HasPrefix(tail, "#") // otherwise the suffix is part of the path
+			if got != want || (isTail && got != base) {
 				class := "plain"
 				if strings.HasPrefix(tail, "?") {
 					class = "query"
@@ -306,7 +308,7 @@ func c07Run(r *ev.Run) {
 		atomic.AddInt64(&evals, int64(n))
 		atomic.AddInt64(&done, 1)
 		if i == 5 || i == nSingle/2 || i == nSingle+nPairs/3 {
-			r.Sample(map[string]any{"rules": rules, "targets": "all 84 path+tail combinations", "example_target": "/a/b?.css",
+			r.Sample(map[string]any{"rules": rules, "targets": "all path+tail combinations", "example_target": "/a/b?.css",
 				"reference_triggered": c07RefTriggered(rules, "/a/b?.css")})
 		}
 	})
